@@ -2,6 +2,13 @@
 import glob, json, os
 V = os.path.dirname(os.path.dirname(os.path.abspath(__file__)))
 HIST = {
+    "C05b-m1": "missed at first (no dataset in the bounded scope had been through a file before being written again); bounded C05 now includes second-generation datasets (read from a full / minimal file, then every format again)",
+    "C05b-m2": "missed at first (no configuration with endpoint options in the bounded scope of C05; C18's check has them); bounded C05 now writes configurations recording coordinate lists, flags and None",
+    "C08b-m1": "missed at first by C08 (its config-driven check bypassed the cache; C11's proof of from_config caught it: clause served-from-file); bounded C08 now makes the same request twice through a local cache directory",
+    "C12b-m2": "missed at first by C12 (generate_random_path was proved under C03 only and drawn without options in the bounded check); C12 now proves get_connected_component / generate_random_path itself and draws endpoints with options naming every cell",
+    "C12b-m1": "the same change as C13b-m2, found independently by a second agent",
+    "C13b-m2": "the loop now writes a variable outside its declared frame: the function leaves the verified subset (undecided), the violation comes from the bounded stand-in",
+    "C17-m2": "rewrites get_batch with tensor.new_empty (outside the verified subset: undecided); the violation comes from the bounded stand-in; get_batch as written is now under contract",
     "C14-m2": "missed at first (no multi-step history); bounded C14 now computes some cached views, changes max_grid_size, calls clear_cache() and compares with a fresh tokenizer",
     "C15-m2": "missed at first (identity only compared on unused tokenizers); bounded C15 now compares name / hash / equality before and after tokenizing mazes with the same object",
     "C18-m2": "missed at first (decorators are outside the prover's subset and a value cached in the instance __dict__ was read as known); the prover now treats attributes stored in __dict__ by earlier calls as unknown, and bounded C18 edits a configuration in place and asks again",
